@@ -35,7 +35,8 @@ TIE = 1e-8
 def params(draw, enss, allow_texp=True):
     """Analysis parameters with their sources.  Returns dict usable by apply_params."""
     out = {}
-    for name, strat, zero_ok in (('S', st.one_of(gen.fl(0.3, 6.0), st.sampled_from([1.0, 1.5, 2.0, 3, 0, 0.0])), True),
+    for name, strat, zero_ok in (('S', st.one_of(gen.fl(0.3, 6.0), st.sampled_from([1.0, 1.5, 2.0, 3, 0, 0.0]),
+                                                  st.sampled_from([1e-3, 1e-9, 1e-12, 1e-200])), True),
                                  ('tau_exp', st.one_of(st.just(0.0), st.just(0.0), gen.fl(0.1, 20.0), st.sampled_from([1, 5.0])), True),
                                  ('N_sigma', st.one_of(gen.fl(0.0, 3.0), st.sampled_from([1.0, 2, 0.0])), True)):
         src = draw(st.sampled_from(['default', 'default', 'arg', 'dict', 'global']))
@@ -87,7 +88,20 @@ def apply_params(pe, par, enss):
 @st.composite
 def gamma_case(draw, tier):
     nmax = 40 if tier == 'quick' else 300
-    spec = draw(gen.obs_spec(ens_max=3, rep_max=3, nmin=5, nmax=nmax, sigma=gen.fl(0.01, 2.0)))
+    if draw(st.integers(0, 7)) == 0:
+        # many short replicas of one ensemble: N is large compared with the largest admissible lag, so that the windowing
+        # criterion of mildly autocorrelated data stays positive at every lag and the window has to be that largest lag
+        e = draw(st.sampled_from(gen.ENSEMBLES))
+        chains = []
+        for k in range(3):
+            n = draw(st.integers(6, 11))
+            i0 = draw(st.integers(1, 50))
+            chains.append({'name': '%s|r%02d' % (e, k + 1), 'idl': list(range(i0, i0 + n)), 'form': draw(gen.idl_form()),
+                           'data': {'kind': 'ar1', 'seed': draw(st.integers(0, 2 ** 31 - 1)), 'mean': draw(gen.fl(-2.0, 2.0)),
+                                    'sigma': draw(gen.fl(0.1, 1.0)), 'rho': draw(gen.fl(0.2, 0.8))}})
+        spec = {'chains': chains, 'cov': []}
+    else:
+        spec = draw(gen.obs_spec(ens_max=3, rep_max=3, nmin=5, nmax=nmax, sigma=gen.fl(0.01, 2.0)))
     enss = sorted(set(c['name'].split('|')[0] for c in spec['chains']))
     if draw(st.integers(0, 3)) == 0:
         # whole ensembles at another order of magnitude: the estimator is scale covariant, absolute thresholds are not
@@ -211,10 +225,14 @@ def gamma_oracle(spec):
         labs.add('tau_exp>0')
     if any(v == 0 for v in eff['S'].values()):
         labs.add('S=0')
+    if any(0 < v < 1e-2 for v in eff['S'].values()):
+        labs.add('S:tiny')
     for e, r in per.items():
         if not r.get('undefined') and not r.get('degenerate'):
             lim = (r['wmax'] - 1) if eff['tau_exp'][e] == 0 else (r['wmax'] // 2 - 2)
             labs.add('window:' + ('at_limit' if r['window'] >= lim else 'interior'))
+            if eff['tau_exp'][e] == 0 and eff['S'][e] > 0 and r['window'] >= 2 and all(m >= 0 for m in r.get('margins', [])):
+                labs.add('window:criterion_never_negative')
         if r.get('degenerate'):
             labs.add('zero_variance')
     labs.add('fft:%s' % spec['par'].get('fft'))
